@@ -540,6 +540,30 @@ pub fn c04_cases(rng: &mut Rng, tier: &str, out: &mut Out) {
                 }
                 out.raw(&case);
             }
+            // the same two repairs from a source that delivers the archive in short reads (a pipe,
+            // a socket): the two modes must still relate as the property says
+            if counter % (if tier == "thorough" { 2 } else { 5 }) == 0 {
+                let sched: Vec<usize> = (0..4000).map(|_| *rng.pick(&[1usize, 2, 3, 5, 7, 11, 16, 17, 40, 64, 81])).collect();
+                let ta = crate::repair::repair_with(crate::util::ThrottledReader::new(std::io::Cursor::new(bytes.clone()), sched.clone()), &built.privs, false);
+                let tu = crate::repair::repair_with(crate::util::ThrottledReader::new(std::io::Cursor::new(bytes.clone()), sched.clone()), &built.privs, true);
+                let rest = oracle_c04(plan, built, &ta, &tu, *j, *usable, *c0);
+                let mut case = Case {
+                    id: format!("c04-a{ai}-{k}-{kind}-short-reads"),
+                    model_fn: "",
+                    args: vec![],
+                    imp: json!([]),
+                    oracle_ok: rest.is_ok(),
+                    oracle_msg: rest.clone().err().map(|e| format!("source delivering short reads: {e}")).unwrap_or_default(),
+                    class: format!("{akind} {kind} short-reads"),
+                    nontrivial: true,
+                    meta: json!({"archive": ai, "kind": kind, "fail_chunk": j, "usable": usable, "chunks": nch, "len": bytes.len(), "sched": sched[..8].to_vec()}),
+                }
+                .to_json();
+                if rest.is_err() && *c0 && ta.crashed.is_none() && tu.crashed.is_none() {
+                    case["known"] = json!("D2");
+                }
+                out.raw(&case);
+            }
         }
     }
 }
